@@ -210,7 +210,7 @@ def main(tier):
             common.report_violation(PROP, p)
             nviol += 1
     ev.sample({"churn_body": "array_push_drop", "source": churn_program("array_push_drop", 10)})
-    total = 4000 if tier == "quick" else 40000
+    total = 12000 if tier == "quick" else 100000
     results = harness.run_workers("pbt.c14_heap", tier, total)
     for r in results:
         ev.merge(r["evidence"])
